@@ -1,5 +1,6 @@
 """C08 - database discovery is sound and database verification notices violating rows."""
 import ast
+import re
 
 from .. import ief, triage, taint
 from ..flow import GuardMap
@@ -20,6 +21,7 @@ def check(run):
     total(run, p, sh)
     exc(run, p, sh)
     rexflags(run, p)
+    readonly(run, p, roots)
     from .c07 import agg
     agg(run, p)
     from .common import nocache_rule
@@ -176,3 +178,57 @@ def rexflags(run, p):
                             and x.args[0].value.lower() == 'regexp' for x in reg)
     run.ob('C08-REXFLAGS', 'registration', ok2, 'create_function registers regex_matcher as regexp: %s' % [norm(x) for x in reg], fn=f, nontrivial=False)
     run.floor('C08-REXFLAGS', 2, 2)
+
+
+TXN_CALLS = {'commit', 'rollback', 'close', 'executescript', 'set_session', 'begin'}
+DML = re.compile(r'^\s*(insert|update|delete|drop|create|alter|truncate|begin|commit|rollback|vacuum|replace|attach)\b', re.I)
+TXN_POSITIVE = '''
+def f(self):
+    self.dbc.rollback()
+    self.cursor.execute('DELETE FROM t')
+    self.cursor.execute('SELECT 1')
+'''
+
+
+def txn_sites(nodes):
+    out = []
+    for x in nodes:
+        if isinstance(x, ast.Call) and isinstance(x.func, ast.Attribute) and x.func.attr in TXN_CALLS:
+            out.append((x, '%s()' % norm(x.func)))
+        if isinstance(x, ast.Attribute) and x.attr in ('autocommit', 'isolation_level') and isinstance(x.ctx, ast.Store):
+            out.append((x, 'assignment to %s' % norm(x)))
+        if isinstance(x, ast.Constant) and isinstance(x.value, str) and DML.match(x.value):
+            out.append((x, 'SQL statement %r' % x.value[:40]))
+    return out
+
+
+def readonly(run, p, roots):
+    run.rule('C08-READONLY', 'discovery and verification read the table as the caller\'s connection shows it and leave its transaction '
+                             'alone: no function reachable from discover_db_table / verify_db_table commits, rolls back or closes a '
+                             'connection, changes its autocommit / isolation level, or issues a data-changing SQL statement')
+    if len(txn_sites(list(ast.walk(ast.parse(TXN_POSITIVE))))) != 2:
+        raise AnalysisError('transaction rule no longer matches its embedded example')
+    seen = dict(p.reach(roots))
+    # the handler classes are instantiated through the DATABASE_HANDLERS table (handlerClass(dbtype, dbc)), which the
+    # call graph does not resolve: their constructors run on every discovery and verification
+    for c in p.classes.values():
+        if c.mod.name == 'tdda.constraints.db.drivers' and '__init__' in c.methods:
+            seen.setdefault((c.methods['__init__'].qn, c.qn), None)
+    n = 0
+    done = set()
+    for (qn, ctx) in seen:
+        if qn in done:
+            continue
+        done.add(qn)
+        f = p.funcs[qn]
+        if not f.rel.startswith('tdda/constraints/'):
+            continue
+        n += 1
+        sites = txn_sites(list(p.own_nodes(f)))
+        if not sites:
+            run.ob('C08-READONLY', '%s::%s' % (f.rel, f.short), True, 'no transaction control, no data-changing SQL', fn=f, nontrivial=False)
+        for node, what in sites:
+            run.ob('C08-READONLY', '%s::%s::%s' % (f.rel, f.short, what[:50]), False,
+                   '%s, reachable from the discovery / verification entry points, performs %s on the caller\'s connection' % (f.short, what),
+                   fn=f, node=node)
+    run.floor('C08-READONLY', n, 100)
